@@ -69,6 +69,7 @@ class DeadlockOracle(O.Monitor):
         self.cur_call = None
         self.events_in_call = 0
         self.formed_in_phase1 = False
+        self.detector_reported = False
 
     def before(self, Q, node, etype):
         k = getattr(Q, "call_index", 0)
@@ -87,6 +88,12 @@ class DeadlockOracle(O.Monitor):
         self.events_in_call += 1
         was = bool(self.prev)
         self.prev = oracle(Q)
+        # the detector asked in every reached state (it is read-only): it reports a deadlock exactly when one exists
+        said = bool(Q.deadlock_detector.detect_deadlock())
+        if said != bool(self.prev) and not self.detector_reported:
+            self.detector_reported = True
+            Q.report(self.P, "C18.detector-never-reports-deadlock-without-one" if said else "C18.detector-reports-every-deadlock", etype,
+                     {"detector": said, "deadlocked_nodes": sorted(self.prev), "clock": O._num(t)})
         if Q.cur_step[0] != "until_deadlock":
             if self.prev and not was:
                 self.formed_in_phase1 = True
@@ -203,6 +210,23 @@ def config_execute(case):
     return {"violations": viol, "nontrivial": any(isinstance(s, int) for sv in nodes for s in sv), "classes": ["deadlock" if exp else "no_deadlock"]}
 
 
+@st.composite
+def long_run_case(draw):
+    nf = draw(st.integers(1, 3))
+    hub_c = draw(st.integers(2, 3))
+    fb = draw(st.sampled_from([0.02, 0.04, 0.06]))
+    n = nf + 1
+    rows = [[0.0] * nf + [draw(st.sampled_from([0.9, 1.0]))] for _ in range(nf)] + [[fb] * nf + [draw(st.sampled_from([0.0, 0.0, 0.02]))]]
+    cls = {"name": "C0", "priority": 0, "arrival": [["exp", draw(st.sampled_from([0.8, 1.0, 1.2]))] for _ in range(nf)] + [None],
+           "service": [["exp", draw(st.sampled_from([2.0, 3.0]))] for _ in range(nf)] + [["exp", draw(st.sampled_from([1.0, 1.2, 1.6])) * hub_c / 2.0]],
+           "routing": {"kind": "matrix", "rows": rows}}
+    nodes = [{"cap": draw(st.sampled_from([1, 2, 3])), "servers": {"kind": "int", "c": draw(st.sampled_from([1, 1, 2]))}} for _ in range(nf)] \
+        + [{"cap": 0, "servers": {"kind": "int", "c": hub_c}}]
+    budget = 12000 if S._thorough() else 6000
+    return {"classes": [cls], "nodes": nodes, "plan": {"kind": "until_deadlock"}, "deadlock": True, "seed": draw(st.integers(0, 10000)),
+            "event_budget": budget, "tracker": {"kind": draw(st.sampled_from(["NaiveBlocking", "MatrixBlocking"]))}}
+
+
 def subchecks(tier):
     w = {"capacity": 1.0, "priorities": 0.3, "batching": 0.3, "self_loops": 0.7, "routing_objects": 0.4, "process_routing": 0.3, "discipline": 0.2,
          "cc_after": 0.15, "zero_service": 0.2, "server_priority": 0.1}
@@ -216,7 +240,19 @@ def subchecks(tier):
     wm = {"capacity": 1.0, "self_loops": 0.5, "priorities": 0.2, "discipline": 0.2, "routing_objects": 0.3}
     many = S.Profile(list(wm), weights=wm, required=("capacity",), numeric="mixed", min_nodes=10, max_nodes=12, max_classes=2, plans=("until_deadlock",),
                      horizon=(5.0, 10.0), budget=900, caps=(0, 0, 1), load="heavy", stay=0.7, max_c=2)
+    # long runs before the first deadlock (thousands of service completions): see long_run_case; and long runs with much feedback
+    wl = {"capacity": 1.0, "self_loops": 0.7, "priorities": 0.2, "routing_objects": 0.2, "batching": 0.2}
+    longfb = S.Profile(list(wl), weights=wl, required=("capacity",), numeric="cont", min_nodes=2, max_nodes=3, max_classes=2, plans=("until_deadlock",),
+                       horizon=(5.0, 10.0), budget=9000, caps=(1, 2, 2, 3), load="heavy", stay=0.85, max_c=3)
     return [
+        system_subcheck("long_feedback", longfb, lambda spec: [DeadlockOracle()], lambda a, spec, res: a.get("events", 0) >= 2500 and a.get("resolved_blockages", 0) >= 20,
+                        classes=classes, spec_filter=lambda spec: dict(post_filter(spec), event_budget=9000), n={"quick": 64, "thorough": 800},
+                        rule="2-3 multi-server nodes with waiting room and much feedback: the same customers are blocked several times, on different servers, "
+                             "over thousands of events; same oracle"),
+        system_subcheck("long_run", None, lambda spec: [DeadlockOracle()], lambda a, spec, res: a.get("events", 0) >= 2500 and a.get("resolved_blockages", 0) >= 20,
+                        classes=classes, strategy=long_run_case(), n={"quick": 64, "thorough": 1600},
+                        rule="feeder nodes with waiting room into a multi-server hub without waiting room, a few per cent feedback: blocks all the time, deadlocks "
+                             "rarely - thousands of events (>= 1000 service completions) before the first deadlock; oracle and detector query after every event"),
         system_subcheck("instant_deadlock", instant, lambda spec: [DeadlockOracle()], lambda a, spec, res: a.get("deadlocks", 0) >= 1,
                         classes=lambda a, spec, res: classes(a, spec, res) + (["deadlock_at_time_zero"] if a.get("deadlock_at_zero") else []),
                         spec_filter=post_filter, n={"quick": 2400, "thorough": 15000},
